@@ -3,7 +3,7 @@ import itertools
 import re
 from .family import Family
 
-PROPS_MODULES = ["C12", "C12Live", "LtsSteps"]
+PROPS_MODULES = ["C12", "C12Live", "LtsSteps", "HandlerOps"]
 RULE = ("family `worker`: a real VhostUserDaemon (RecordingBackend; VringMutex and VringRwLock rings) whose worker thread and "
         "request thread are parked at the hold points of feature verif-hooks (event_loop.rs: before epoll.wait, after it "
         "returned an event, before read_kick, after read_kick, before backend.handle_event; handler.rs: after every ring "
